@@ -36,16 +36,20 @@ TT_OPS = ("round_tt", "round", "tn.round_tt", "tn.round", "ctor_cores", "ctor_de
 TUCKER_OPS = ("round_tucker", "round", "tn.round_tucker", "tn.round", "ctor_cores", "ctor_dense")
 
 
-def scaled(tj, uscale):
-    """the tensor actually used: Tucker factors with their columns multiplied by the integer scales"""
-    if not uscale or all(s is None for s in uscale):
+def scaled(tj, uscale, xscale=None):
+    """the tensor actually used: Tucker factors with their columns multiplied by the integer scales, and the
+    whole tensor multiplied by xscale (applied to the first core)"""
+    if (not uscale or all(s is None for s in uscale)) and xscale in (None, 1):
         return tj
     out = {"modes": []}
-    for m, s in zip(tj["modes"], uscale):
-        U = m["U"]
+    for n, m in enumerate(tj["modes"]):
+        s = uscale[n] if uscale else None
+        U = m["U"]; core = m["core"]
         if U is not None and s is not None:
             U = [[U[i][j] * s[j] for j in range(len(s))] for i in range(len(U))]
-        out["modes"].append({"kind": m["kind"], "core": m["core"], "U": U})
+        if n == 0 and xscale not in (None, 1):
+            core = (np.array(core, dtype=np.float64) * xscale).tolist()
+        out["modes"].append({"kind": m["kind"], "core": core, "U": U})
     return out
 
 
@@ -212,9 +216,11 @@ class Prop:
         quick = tier == "quick"
         cases = []
 
-        def mk(op, tj, eps, alg, rmax=None, uscale=None, kind="", dim=None, **tags):
+        def mk(op, tj, eps, alg, rmax=None, uscale=None, kind="", dim=None, xscale=None, **tags):
             N = len(tj["modes"])
-            ts = scaled(tj, uscale)
+            if xscale == "random":      # the whole tensor times a power of ten: every clause is scale invariant
+                xscale = rng.choice([None, None, None, 1e-3, 1e-6, 1e4])
+            ts = scaled(tj, uscale, xscale)
             cond = "1"
             if uscale and any(s is not None for s in uscale):
                 cond = "1e%d" % int(round(math.log10(max(max(s) for s in uscale if s is not None))))
@@ -238,9 +244,11 @@ class Prop:
                       last_U=tj["modes"][-1]["U"] is not None, first_U=tj["modes"][0]["U"] is not None,
                       has_cp=any(m["kind"] == "cp" for m in tj["modes"]),
                       cp_end=tj["modes"][0]["kind"] == "cp" or tj["modes"][-1]["kind"] == "cp",
-                      dim_arg=dim is not None)
+                      dim_arg=dim is not None, xscale=str(xscale or 1))
             tg.update(tags)
             c = {"op": op, "t": tj, "uscale": uscale, "eps": eps, "alg": alg, "rmax": rmax, "tags": tg}
+            if xscale is not None:
+                c["xscale"] = xscale
             if dim is not None:
                 c["dim"] = dim
             cases.append(c)
@@ -261,7 +269,7 @@ class Prop:
                     if quick and rng.random() > (0.6 if N == 2 else 0.22):
                         continue
                     tj = rand_tensor_json(rng, rshape(N), list(kinds), maxr=rng.choice([2, 3, 4]), maxs=3)
-                    mk(op, tj, reps(), algs[k % 2], kind="lattice"); k += 1
+                    mk(op, tj, reps(), algs[k % 2], kind="lattice", xscale="random"); k += 1
         # 2. seeded formats N = 4, 5
         for _ in range(150 if quick else 1500):
             N = rng.choice([4, 4, 4, 5])
@@ -341,7 +349,78 @@ class Prop:
             else:
                 tj = rand_tensor_json(rng, rshape(N, 3), maxr=3, zero=rng.random() < 0.5, maxs=2)
             op = rng.choice(["round_tt", "round", "tn.round_tt", "tn.round", "ctor_cores", "ctor_dense", "round_tucker"])
-            mk(op, tj, TINY[algs[k % 2]], algs[k % 2], kind="tiny"); k += 1
+            mk(op, tj, TINY[algs[k % 2]], algs[k % 2], kind="tiny", xscale="random"); k += 1
+        # 6b. all-zero tensors with every entry point, both algorithms (zero special case of the truncated SVD);
+        #     all cores zero / a single zero core (first, middle, last) / a zero Tucker factor
+        for op in ALLOPS + ["ctor_dense"]:
+            for alg in algs:
+                for variant in ("all", "first", "middle", "last", "factor"):
+                    for rep_ in range(1 if quick else 4):
+                        N = rng.randint(2, 4)
+                        kinds = None
+                        if variant == "factor":
+                            kinds = [(rng.choice(["tt", "cp"]), True) for _ in range(N)]
+                        tj = rand_tensor_json(rng, rshape(N, 3), kinds, maxr=3, maxs=3, zero=variant == "all")
+                        if variant in ("first", "middle", "last"):
+                            n = 0 if variant == "first" else N - 1 if variant == "last" else N // 2
+                            tj["modes"][n]["core"] = (np.array(tj["modes"][n]["core"]) * 0).tolist()
+                        if variant == "factor":
+                            n = rng.randrange(N)
+                            tj["modes"][n]["U"] = (np.array(tj["modes"][n]["U"]) * 0).tolist()
+                        mk(op, tj, rng.choice([0.5, 0.1, 1e-4, 1e-8, TINY[alg]]), alg, kind="zero-" + variant)
+        # 6c. budget stress: larger modes and ranks, large tolerances (every truncation close to its share of the
+        #     budget), every entry point, hybrid formats (factors on some modes only, CP cores at the ends)
+        for _ in range(1500 if quick else 12000):
+            N = rng.choice([2, 3, 3, 4, 4])
+            r = rng.random()
+            if r < 0.35:
+                kinds = None
+            elif r < 0.6:       # CP cores at one or both ends
+                kinds = [rng.choice(KINDS) for _ in range(N)]
+                if rng.random() < 0.7:
+                    kinds[0] = ("cp", rng.random() < 0.4)
+                if rng.random() < 0.7:
+                    kinds[-1] = ("cp", rng.random() < 0.4)
+            elif r < 0.85:      # TT cores, factors on a strict subset of the modes
+                kinds = [("tt", False)] * N
+                for n in rng.sample(range(N), rng.randint(1, N - 1)):
+                    kinds[n] = ("tt", True)
+            else:               # factor on the last mode only / on every mode
+                kinds = [("tt", rng.random() < 0.5) for _ in range(N - 1)] + [(rng.choice(["tt", "cp"]), True)]
+            shape = [rng.randint(3, 5) for _ in range(N)]
+            tj = rand_tensor_json(rng, shape, kinds, maxr=4, maxs=4, lo=-3, hi=3)
+            eps = round(rng.uniform(0.05, 0.95), 3)
+            mk(rng.choice(ALLOPS), tj, eps, algs[k % 2], kind="stress", xscale="random"); k += 1
+        # 6d. superdiagonal tensors sum_i w_i e_i x ... x e_i with graded integer weights: every unfolding has the
+        #     singular values w_i, so each truncation step discards as much as its share of the budget allows and the
+        #     errors of successive steps add up (this is where a wrong budget split shows)
+        for _ in range(500 if quick else 5000):
+            N = rng.choice([2, 3, 3, 4])
+            n = rng.randint(4, 8) if N < 4 else rng.randint(4, 6)
+            w = [rng.randint(30, 120)] + [rng.randint(1, 14) for _ in range(n - 1)]
+            fmt = rng.choice(["cp", "tt", "mixed"])
+            modes = []
+            for d in range(N):
+                perm = list(range(n)); rng.shuffle(perm)
+                kind = fmt if fmt != "mixed" else rng.choice(["cp", "tt"])
+                col = lambda i: [(w[i] if d == 0 else 1) * (1 if j == perm[i] else 0) for j in range(n)]
+                hasU = rng.random() < 0.3
+                E = [[(1 if j == perm[i] else 0) for i in range(n)] for j in range(n)]      # n x n permutation
+                if kind == "cp":
+                    core = [[(w[i] if d == 0 else 1) * E[j][i] for i in range(n)] for j in range(n)] if not hasU else \
+                        [[(w[i] if d == 0 else 1) * (1 if j == i else 0) for i in range(n)] for j in range(n)]
+                else:
+                    core = [[[((w[i] if d == 0 else 1) if (a == i and b == i) else 0) * (E[j][i] if not hasU else (1 if j == i else 0))
+                              for b in range(n)] for j in range(n)] for a in range(n) for i in [a]]
+                modes.append({"kind": kind, "core": core, "U": E if hasU else None})
+            # boundary TT cores must have outer bond 1: sum the diagonal into the open bond
+            if modes[0]["kind"] == "tt":
+                c = np.array(modes[0]["core"]); modes[0]["core"] = c.sum(axis=0, keepdims=True).tolist()
+            if modes[-1]["kind"] == "tt":
+                c = np.array(modes[-1]["core"]); modes[-1]["core"] = c.sum(axis=2, keepdims=True).tolist()
+            tj = {"modes": modes}
+            eps = round(rng.uniform(0.03, 0.6), 3)
+            mk(rng.choice(ALLOPS + ["ctor_dense"]), tj, eps, algs[k % 2], kind="superdiag", xscale="random"); k += 1
         # 7. construction from a dense array with eps=
         for _ in range(120 if quick else 1200):
             N = rng.randint(1, 4)
@@ -434,7 +513,7 @@ class Prop:
                 r = tn.sparse_tt_svd(X, y, case["eps"], shape=list(case["shape"]) if case["shape_given"] else None,
                                      rmax=case["rmax"])
                 return {"ok": True, "t": from_tn(r)}
-            ts = scaled(case["t"], case.get("uscale"))
+            ts = scaled(case["t"], case.get("uscale"), case.get("xscale"))
             if op == "ctor_dense":
                 x = torch.tensor(dense_np(ts))
                 r = tn.Tensor(x, eps=case["eps"], algorithm=case["alg"])
@@ -463,7 +542,7 @@ class Prop:
             out["scale"] = float(np.prod([fro(m["core"]) * (fro(m["U"]) if m["U"] is not None else 1.0) for m in ts["modes"]]))
         out["exact"] = None
         if is_tiny(case["eps"], case["alg"]) and op in TT_OPS and N >= 2:
-            out["exact"] = self._exact(dense_exact(ts), x, case["eps"])
+            out["exact"] = self._exact(dense_exact(scaled(case["t"], case.get("uscale"))), x, case["eps"])
         return out
 
     def _exact(self, xi, x, eps):
@@ -495,7 +574,7 @@ class Prop:
             if case["eps"] < 1e-6:      # below the noise of the Gram matrices nothing is promised about the ranks
                 out["tt_in"] = [10 ** 9] * (len(shape) + 1)
             return out
-        out = self._spec_one(case, scaled(case["t"], case.get("uscale")))
+        out = self._spec_one(case, scaled(case["t"], case.get("uscale"), case.get("xscale")))
         out["ok"] = True
         return out
 
@@ -508,7 +587,9 @@ class Prop:
             return False, "result is not a well-formed network (%s)" % type(e).__name__
         if list(y.shape) != list(x.shape):
             return False, "shape %s, expected %s" % (list(y.shape), list(x.shape))
-        if not np.all(np.isfinite(y)):
+        if not np.all(np.isfinite(y)) or not all(
+                np.all(np.isfinite(np.array(m["core"], dtype=np.float64))) and
+                (m["U"] is None or np.all(np.isfinite(np.array(m["U"], dtype=np.float64)))) for m in rt["modes"]):
             return False, "result has non-finite entries"
         N = len(exp["shape"])
         tt_out, tk_out = ranks_tt_of(rt), ranks_tucker_of(rt)
@@ -540,7 +621,7 @@ class Prop:
         err = fro(y - x)
         bound_eps = 0.0 if batch else eps     # the library's batch rounding does not truncate by eps: unchanged
         if not binding:
-            if err > bound_eps * (1 + RTOL) * nx + (1e-6 * nx if batch else 1e-13 * nx + 1e-12 * exp["scale"]):
+            if not (err <= bound_eps * (1 + RTOL) * nx + (1e-6 if batch else 1e-13) * nx + 1e-12 * exp["scale"]):
                 return False, "relative error %g exceeds eps = %g (|x| = %g)" % (err / nx if nx else err, eps, nx)
         # ---- exact ranks at a tolerance just above noise
         if exp.get("exact") is not None and not binding and not batch:
@@ -579,8 +660,8 @@ class Prop:
             return "sparse;%s;%d;%s;%s;%s" % (case["shape"], len(case["X"]), case["eps"], case["rmax"],
                                            hashlib.sha1(json.dumps([case["X"], case["y"]]).encode()).hexdigest()[:8])
         tj = case["t"]
-        return "%s;%s;%s;%s;%s;%s;%s;%s;%s" % (case["op"], tsig(tj), tshape(tj), ranks_tt_of(tj), case["eps"], case["alg"],
-                                              case["rmax"], case.get("uscale"), case.get("dim"))
+        return "%s;%s;%s;%s;%s;%s;%s;%s;%s;%s" % (case["op"], tsig(tj), tshape(tj), ranks_tt_of(tj), case["eps"], case["alg"],
+                                                 case["rmax"], case.get("uscale"), case.get("dim"), case.get("xscale"))
 
     def coq_term(self, case, res):
         return None
